@@ -119,9 +119,89 @@ def _regex_rule(pattern, repl, flags=0):
     return f
 
 
+def _stmt_end(src, mask, j):
+    depth = 0
+    while j < len(src):
+        if mask[j]:
+            c = src[j]
+            if c in '([{':
+                depth += 1
+            elif c in ')]}':
+                depth -= 1
+            elif c == ';' and depth == 0:
+                return j
+        j += 1
+    raise Undecided('unterminated statement')
+
+
+def _split_top(s):
+    parts, depth, cur = [], 0, ''
+    for ch in s:
+        if ch in '([{':
+            depth += 1
+        elif ch in ')]}':
+            depth -= 1
+        if ch == ',' and depth == 0:
+            parts.append(cur.strip())
+            cur = ''
+        else:
+            cur += ch
+    if cur.strip():
+        parts.append(cur.strip())
+    return parts
+
+
+def rule_R5a(src):
+    """let [p0, p1, ..] = E;  ->  let p0 = (E)[0]; let p1 = (E)[1]; ..   (elements are Copy)"""
+    mask = rl.code_mask(src)
+    out, pos, n = [], 0, 0
+    for m in rl.find_code(src, re.compile(r'\blet\s*\['), mask=mask):
+        if m.start() < pos:
+            continue
+        o = m.end() - 1
+        c = rl.match_bracket(src, o, mask)
+        mm = re.match(r'\s*=\s*(?!=)', src[c + 1:])
+        if not mm:
+            continue
+        e0 = c + 1 + mm.end()
+        e1 = _stmt_end(src, mask, e0)
+        expr = _flat(src[e0:e1])
+        pats = _split_top(src[o + 1:c])
+        new = ' '.join('let %s = (%s)[%d];' % (p_, expr, k) for k, p_ in enumerate(pats) if p_ != '_')
+        out.append(src[pos:m.start()])
+        out.append(_pad(new, src[m.start():e1 + 1]))
+        pos = e1 + 1
+        n += 1
+    out.append(src[pos:])
+    return ''.join(out), n
+
+
+def rule_R5b(src):
+    """(a, b) = E;  ->  { let vx_t = E; a = vx_t.0; b = vx_t.1; }   (destructuring assignment)"""
+    mask = rl.code_mask(src)
+    out, pos, n = [], 0, 0
+    rx = re.compile(r'(?:(?<=[;{}])|^)(\s*)\(\s*([A-Za-z_][A-Za-z0-9_.]*(?:\s*,\s*[A-Za-z_][A-Za-z0-9_.]*)+)\s*\)\s*=(?!=)', re.M)
+    for m in rl.find_code(src, rx, mask=mask):
+        if m.start() < pos:
+            continue
+        e0 = m.end()
+        e1 = _stmt_end(src, mask, e0)
+        names = [x.strip() for x in m.group(2).split(',')]
+        new = m.group(1) + '{ let vx_t = %s; %s }' % (_flat(src[e0:e1]), ' '.join('%s = vx_t.%d;' % (nm, k) for k, nm in enumerate(names)))
+        out.append(src[pos:m.start()])
+        out.append(_pad(new, src[m.start():e1 + 1]))
+        pos = e1 + 1
+        n += 1
+    out.append(src[pos:])
+    return ''.join(out), n
+
+
 GLOBAL_RULES = [
     ('R1', 'attributes removed (#[inline], #[allow], #[unroll_for_loops], #[must_use], #[rustfmt::skip], #[cfg] of the selected arm)',
      _regex_rule(r'#\[(?:inline|allow|unroll_for_loops|must_use|rustfmt::skip|cfg|cold|doc)[^\]]*\]', '')),
+    ('R1b', 'const_assert!(..) removed (evaluated by rustc at compile time)', _regex_rule(r'\bconst_assert!\([^;]*\);', '')),
+    ('R5a', 'array pattern `let [a,b,..] = e;` -> indexed lets', rule_R5a),
+    ('R5b', 'destructuring assignment `(a, b) = e;` -> temporary + field assignments', rule_R5b),
     ('R2', 'branch_hint() removed (empty asm!, no semantics)', _regex_rule(r'\bbranch_hint\(\)\s*;', '')),
     ('R3', 'plonky2_util::assume(p) renamed to util_assume(p) with `requires p` (assumption becomes an obligation)',
      _regex_rule(r'(?<![A-Za-z0-9_:.])assume\(', 'util_assume(')),
@@ -183,6 +263,11 @@ def parse_vspec(path):
                         chunks.append(('text', cur_text))
                         cur_text = []
                     chunks.append(('include', rest))
+                elif word == 'import':
+                    if cur_text:
+                        chunks.append(('text', cur_text))
+                        cur_text = []
+                    chunks.append(('import', rest.split()))
                 elif word == 'item':
                     if cur_text:
                         chunks.append(('text', cur_text))
@@ -508,6 +593,7 @@ def generate(vspec_path, probe=False, mutant=None):
     units = {}
     meta = []
     fn_ranges = []
+    imports = []
 
     def emit(lines, origins=None, tag=None):
         for k, l in enumerate(lines):
@@ -522,6 +608,16 @@ def generate(vspec_path, probe=False, mutant=None):
         elif kind == 'include':
             p = os.path.join(VERIF, 'prelude', val + '.rs')
             emit(['// ---- include %s ----' % val] + open(p).read().split('\n'))
+        elif kind == 'import':
+            ipath, iid = val[0], val[1]
+            other = parse_vspec(os.path.join(VERIF, ipath))
+            found = [v for k, v in other if k == 'fn' and v.id == iid]
+            if len(found) != 1:
+                raise Undecided('import %s %s: unit not found' % (ipath, iid))
+            sig_lines = list(found[0].sig)
+            emit(['// ---- contract imported from %s::%s (proved there; checked in the same run) ----' % (ipath, iid),
+                  '#[verifier::external_body]'] + sig_lines + ['{ unimplemented!() }'])
+            imports.append((ipath, iid))
         elif kind == 'item':
             text, line = extract_item(val)
             ls = text.split('\n')
@@ -540,7 +636,7 @@ def generate(vspec_path, probe=False, mutant=None):
                         spec_name=(re.search(r'\bfn\s+(\w+)', '\n'.join(u.sig)) or [None, None])[1],
                         ensures=sum(1 for l in u.sig if l.strip()) and _count_clauses(u.sig))
             units[u.id] = info
-    return dict(text='\n'.join(out) + '\n', origins=org, units=units, meta=meta, fn_ranges=fn_ranges, chunks=chunks)
+    return dict(text='\n'.join(out) + '\n', origins=org, units=units, meta=meta, fn_ranges=fn_ranges, chunks=chunks, imports=imports)
 
 
 def _count_clauses(sig_lines):
